@@ -31,7 +31,7 @@ def gen_case(rng, tier):
     nlab = rng.choice([2, 3, 4])
     null_rate = rng.choice([0, 0.2, 0.35])
     keycols = [[None if rng.random() < null_rate else rng.randrange(nlab) for _ in range(n)] for _ in range(nkeys)]
-    kinds = [rng.choice([k for k in ["float", "str", "dt", "int", "cat"] if api.kind_ok(col, k)]) for col in keycols]
+    kinds = [rng.choice([k for k in ["float", "str", "dt", "dttz", "date", "int", "cat"] if api.kind_ok(col, k)]) for col in keycols]
     ncols = rng.choice([1, 1, 2])
     vals = [[rng.choice(VALS) for _ in range(n)] for _ in range(ncols)]
     op = rng.choice(OPS)
@@ -67,7 +67,7 @@ def build(GroupBy, c):
         else:
             keys.append(api.make_key(col, kind, "numpy"))
     if c["container"] != "pandas":
-        keys = [pd.Series(k.values) if isinstance(k, pd.Series) else k for k in keys]
+        keys = [k.reset_index(drop=True).rename(None) if isinstance(k, pd.Series) else k for k in keys]          # (.values would strip a time zone / an Arrow dtype)
     with api.strategy(chunk_threshold=4 if c["rep"] == "chunked" else None):
         return GroupBy(keys if len(keys) > 1 else keys[0])
 
